@@ -1,5 +1,5 @@
 //@ assume: same abstract types as C06/extending (backends with ghost discard/sync counters, the real `&mut` borrows, arbitrary closure); ChainStore::clone / batch abstract
-//@ assume: T5: generic `PMMRHandle<BlockHeader>` => the abstract handle; lifetimes on Batch dropped; log macros removed. No statement of the function is rewritten. The obligation is an assertion spliced before the final `res` relative to a ghost snapshot taken after the closure ran.
+//@ assume: T5: generic `PMMRHandle<BlockHeader>` => the abstract handle; lifetimes on Batch dropped; log macros removed. No statement of the function is rewritten. Obligations: postconditions over ghost operation logs of the backends (`ops`: 1 = discard, 2 = sync) plus the stronger assertion spliced before the final `res` (optional `before?` splice) relative to a ghost snapshot taken after the closure ran.
 //@ assume: decided here: txhashset::extending_readonly (used for validation, tx pool checks, root/merkle-proof computation on a scratch extension) ALWAYS discards all four MMR backends, never syncs one, and leaves sizes and bitmap accumulator untouched -- whatever the closure did and whatever it returned
 //@ assumed_items: 15
 //@ fns: txhashset::extending_readonly
@@ -13,12 +13,12 @@ impl BitmapAccumulator {
     pub fn clone(&self) -> (r: BitmapAccumulator) ensures r == *self { unimplemented!() }
 }
 pub enum Error { Store, Other }
-pub struct PMMRBackend { pub discards: Ghost<int>, pub syncs: Ghost<int>, pub content: Ghost<int> }
+pub struct PMMRBackend { pub discards: Ghost<int>, pub syncs: Ghost<int>, pub content: Ghost<int>, pub ops: Ghost<Seq<int>> }
 impl PMMRBackend {
     #[verifier::external_body]
-    pub fn discard(&mut self) ensures final(self).discards@ == old(self).discards@ + 1, final(self).syncs@ == old(self).syncs@ { unimplemented!() }
+    pub fn discard(&mut self) ensures final(self).discards@ == old(self).discards@ + 1, final(self).syncs@ == old(self).syncs@, final(self).ops@ == old(self).ops@.push(1) { unimplemented!() }
     #[verifier::external_body]
-    pub fn sync(&mut self) -> (r: Result<(), Error>) ensures final(self).syncs@ == old(self).syncs@ + 1, final(self).discards@ == old(self).discards@ { unimplemented!() }
+    pub fn sync(&mut self) -> (r: Result<(), Error>) ensures final(self).syncs@ == old(self).syncs@ + 1, final(self).discards@ == old(self).discards@, final(self).ops@ == old(self).ops@.push(2), r matches Err(e) ==> e is Store { unimplemented!() }
 }
 pub struct PMMRHandle { pub backend: PMMRBackend, pub size: u64 }
 pub struct TxHashSet { pub output_pmmr_h: PMMRHandle, pub rproof_pmmr_h: PMMRHandle, pub kernel_pmmr_h: PMMRHandle, pub bitmap_accumulator: BitmapAccumulator, pub commit_index: ChainStore }
@@ -39,7 +39,7 @@ impl Batch {
     #[verifier::external_body]
     pub fn child(&mut self) -> (r: Result<Batch, Error>) ensures final(self).commits@ == old(self).commits@ { unimplemented!() }
     #[verifier::external_body]
-    pub fn commit(self) -> (r: Result<(), Error>) { unimplemented!() }
+    pub fn commit(self) -> (r: Result<(), Error>) ensures r matches Err(e) ==> e is Store { unimplemented!() }
 }
 pub struct PMMR<'a> { pub backend: &'a mut PMMRBackend, pub size: u64 }
 impl<'a> PMMR<'a> {
@@ -59,6 +59,17 @@ impl<'a> Extension<'a> {
 }
 pub struct ExtensionPair<'b, 'a> { pub header_extension: &'b mut HeaderExtension<'a>, pub extension: &'b mut Extension<'a> }
 
+/// the LAST thing done to a backend is a discard (1) / a sync (2) -- whatever an arbitrary closure did to it before
+pub open spec fn ends_with(b: PMMRBackend, op: int) -> bool { b.ops@.len() > 0 && b.ops@.last() == op }
+pub open spec fn untouched_or_discarded(now: PMMRHandle, before: PMMRHandle) -> bool { now.size == before.size && (now.backend == before.backend || ends_with(now.backend, 1)) }
+/// (the tree handles' sizes and the accumulator are reachable by the closure through `&mut TxHashSet`, so only the exit
+/// assertions, relative to the snapshot taken after the closure ran, can speak about them)
+pub open spec fn backend_rolled_back(now: PMMRBackend, before: PMMRBackend) -> bool { now == before || ends_with(now, 1) }
+pub open spec fn trees_rolled_back(now: TxHashSet, before: TxHashSet) -> bool {
+    backend_rolled_back(now.output_pmmr_h.backend, before.output_pmmr_h.backend) && backend_rolled_back(now.rproof_pmmr_h.backend, before.rproof_pmmr_h.backend)
+    && backend_rolled_back(now.kernel_pmmr_h.backend, before.kernel_pmmr_h.backend)
+}
+pub open spec fn trees_synced(now: TxHashSet) -> bool { ends_with(now.output_pmmr_h.backend, 2) && ends_with(now.rproof_pmmr_h.backend, 2) && ends_with(now.kernel_pmmr_h.backend, 2) }
 pub open spec fn discarded_since(now: TxHashSet, mid: TxHashSet) -> bool {
     &&& now.output_pmmr_h.backend.discards@ == mid.output_pmmr_h.backend.discards@ + 1 && now.output_pmmr_h.backend.syncs@ == mid.output_pmmr_h.backend.syncs@
     &&& now.rproof_pmmr_h.backend.discards@ == mid.rproof_pmmr_h.backend.discards@ + 1 && now.rproof_pmmr_h.backend.syncs@ == mid.rproof_pmmr_h.backend.syncs@
@@ -71,12 +82,16 @@ pub open spec fn discarded_since(now: TxHashSet, mid: TxHashSet) -> bool {
 //@   strip_logs
 //@   sigrewrite `handle: &mut PMMRHandle<BlockHeader>,` => `handle: &mut PMMRHandle,`
 //@   sigrewrite `F: FnOnce(&mut ExtensionPair<'_>, &mut Batch<'_>) -> Result<T, Error>,` => `F: FnOnce(&mut ExtensionPair<'_, '_>, &mut Batch) -> Result<T, Error>,`
-//@   before `\thandle.backend.discard();`:
+//@   before? `\thandle.backend.discard();`:
 //@+    let ghost mid = *trees;
 //@+    let ghost mid_h = *handle;
-//@   before `\tres\n}`:
+//@   before? `\tres\n}`:
 //@+    proof { assert(discarded_since(*trees, mid)); assert(handle.backend.discards@ == mid_h.backend.discards@ + 1 && handle.backend.syncs@ == mid_h.backend.syncs@ && handle.size == mid_h.size); }
 //@   requires:
 //@+    forall|e: &mut ExtensionPair, b: &mut Batch| inner.requires((e, b)),
+//@   ensures:
+//@+    // whatever the closure did and returned: nothing is synced, every backend that was touched ends in a discard, sizes and accumulator as before
+//@+    trees_rolled_back(*final(trees), *old(trees)) && untouched_or_discarded(*final(handle), *old(handle)),
+//@+    r.is_ok() ==> ends_with(final(handle).backend, 1) && ends_with(final(trees).output_pmmr_h.backend, 1) && ends_with(final(trees).rproof_pmmr_h.backend, 1) && ends_with(final(trees).kernel_pmmr_h.backend, 1),
 //@ end
 //@ canary extending_readonly: r.is_err()
